@@ -41,6 +41,28 @@ class OffsetTarget:
         return getattr(self.inner, name)
 
 
+class TerraceTarget:
+    """A log-density that takes few distinct values: exactly 0.0 on a table-top around the centre, then steps of -h per ring
+    (thresholded / top-hat / discrete-valued likelihoods).  Exact ties between different points and log-densities that are
+    exactly zero are the normal case here.  The gradient is zero almost everywhere."""
+
+    def __init__(self, centre, radius=1.0, step=0.75, delay=None):
+        self.mu = np.asarray(centre, float)
+        self.radius, self.step = float(radius), float(step)
+        self.delay = delay
+        self.calls = 0
+
+    def __call__(self, t):
+        self.calls += 1
+        if self.delay is not None:
+            self.delay(self.calls)
+        r = float(np.max(np.abs(np.asarray(t, float) - self.mu))) / self.radius
+        return -self.step * float(np.floor(r)) if r >= 1.0 else 0.0
+
+    def grad(self, t):
+        return np.zeros(self.mu.size)
+
+
 class BananaTarget:
     def __init__(self, b=0.5, s=1.0):
         self.b, self.s = b, s
